@@ -9,6 +9,7 @@ import (
 	"github.com/nulab/autog"
 
 	"verifharness/core"
+	"verifharness/gen"
 )
 
 func init() {
@@ -22,6 +23,7 @@ func init() {
 			"production and only takes part in the race oracle), sequential reference results first (twice each; inputs whose references disagree are left out of the equality oracle), then k in {2, 8, 32, 64} goroutines " +
 			"x GOMAXPROCS in {1, 2, 4, 16, 64} each issuing 3-6 calls on the inputs, no monitor, no hook installed; before the concurrent phase a quarter of the batches each makes no call, a monitored call that returns, a monitored call on the empty graph (panics), a monitored call on a malformed edge (panics); oracles: (1) zero race detector reports (GORACE log of every worker, de-duplicated by the " +
 			"innermost autog frames), (2) every concurrent result equals its sequential reference byte for byte, (3) at the quiescent point the monitor globals are idle and the default options are unchanged (hook H4); " +
+			"every 12th batch runs three graphs with two layers of 60-80 nodes (matrices of thousands of cells in the ordering phase); in the thorough tier 4 batches starve 16 one-second calls on one processor (a result depending on elapsed time then differs from its reference); " +
 			"non-trivial = a batch in which calls on different algorithm cells actually overlapped in time (measured with an in-flight counter)",
 		MinNontrivial: counts(24, 240),
 		Required:      []string{"overlapping_calls", "concurrent_calls", "equality_checks", "preamble:2", "preamble:3"},
@@ -39,6 +41,40 @@ func init() {
 				Procs:      []int{1, 2, 4, 16, 64}[r.Intn(5)],
 				Rounds:     3 + r.Intn(4),
 				Preamble:   r.Intn(4),
+			}
+			switch {
+			case idx%12 == 5:
+				// wide layers: the ordering phase works on matrices of thousands of cells (layer sizes 60-80), the regime in
+				// which buffers get pooled or reused
+				conc.Goroutines, conc.Rounds, conc.Procs = 3, 1, []int{2, 4, 16}[r.Intn(3)]
+				conc.Preamble = 0
+				for i := 0; i < 3; i++ {
+					g := gen.Wide(r, 2, 60, 80, 0.03)
+					var o core.Opts
+					o.Positioner, o.Router = 1, 4
+					conc.Inputs = append(conc.Inputs, core.ConcInput{Edges: gen.Names(g), Opts: o})
+				}
+				c.Conc = conc
+				c.Family = "batch-wide-layers"
+				return c
+			case tier == "thorough" && idx%240 == 7:
+				// CPU starvation: calls that take about two seconds alone under the race detector (network simplex positioner on a 110-130 node tree) are
+				// run 16 at a time on one processor, so each takes 16x longer on the wall clock; a result that depends on
+				// elapsed time (a time budget inside an algorithm) differs from its sequential reference
+				conc.Goroutines, conc.Rounds, conc.Procs = 16, 1, 1
+				conc.Preamble = 0
+				for i := 0; i < 4; i++ {
+					// trees: the ordering phase is trivial, practically all the time is spent in the pivot loop of the positioner
+					g := gen.Tree(r, 110+r.Intn(21), r.Intn(2) == 0)
+					var o core.Opts
+					o.Positioner, o.Router = 3, 4
+					o.HasFixed, o.FixedW, o.FixedH = true, 40, 20
+					o.NodeSpacing = fptr(10)
+					conc.Inputs = append(conc.Inputs, core.ConcInput{Edges: gen.Names(g), Opts: o})
+				}
+				c.Conc = conc
+				c.Family = "batch-cpu-starved"
+				return c
 			}
 			for i := 0; i < k; i++ {
 				fam, edges := generalGraph(r, i, 10, false)
